@@ -1,7 +1,14 @@
 package main
 
+// C12 — SM4-GCM helpers: standard-defined structure of GHASH length block, inc32, GF(2^128)
+// multiplication, tag/J0/H formulas, counter-mode wiring, bounds, no writes to inputs; the TLS
+// suites use crypto/cipher's GCM over sm4.NewCipher.
+
 import (
 	"fmt"
+	"go/token"
+	"sort"
+	"strings"
 
 	"golang.org/x/tools/go/ssa"
 )
@@ -9,21 +16,589 @@ import (
 func init() { register("C12", checkC12) }
 
 func checkC12(c *Ctx) {
+	c.Decided = append(c.Decided,
+		"U-C12-lenblock: the GHASH length block is [8*len(A)]_64 || [8*len(C)]_64 (bit lengths, big-endian, A first)",
+		"K-C12-inc32: the counter increment adds one to the last four bytes only (big-endian, carry stops after byte len-4)",
+		"K-C12-mult: GF(2^128) multiplication scans Y most-significant-bit first, shifts V right by one bit across bytes and reduces with R = 0xe1||0^120",
+		"K-C12-formulas: H = E(K,0^128); J0 = IV||0x00000001 for 96-bit IVs (fresh buffer) and GHASH(H,{},IV) otherwise; T = MSB_128(E(K,J0) xor GHASH(H,A,C)) computed over the ciphertext in both directions; counter blocks Y[i], i>=1, from incr(n+1,J0); block i of the text is xored with E(K,Y[i]); decryption output has the ciphertext's length",
+		"FX-C12-inputs: GCMEncrypt/GCMDecrypt/Sm4GCM write none of their argument slices",
+		"G-C12-keylen: Sm4GCM rejects keys that are not 16 bytes",
+		"T-C12-tls: the TLS SM4-GCM suites build their AEAD with crypto/cipher NewGCMWithNonceSize(sm4.NewCipher(key), 12) and a 4-byte implicit nonce",
+		"B-IDX: every index/slice/make site of the GCM helpers is in bounds for all input lengths (81 sites, LinBounds with callee summaries)")
+	c.NotDec = append(c.NotDec, "the block partition arithmetic of GHASH beyond bounds safety (which blocks are absorbed in which order is not compared with SP 800-38D)", "numerical equality of tags with standard GCM; authentication strength", "the helpers return the recomputed tag; comparing it is left to the caller")
+
+	for _, h := range []string{"sm4.MSB", "sm4.GHASH", "sm4.GetY0", "sm4.GetH", "sm4.Rightshift"} {
+		helperContext[h] = true
+	}
 	var fs []*ssa.Function
+	fnm := map[string]*ssa.Function{}
 	for _, n := range []string{"Sm4GCM", "GetH", "addition", "Rightshift", "findYi", "multiplication", "GHASH", "GetY0", "incr", "MSB", "GCMEncrypt", "GCMDecrypt"} {
 		f := c.Fn("sm4", n)
 		if f == nil {
 			c.Missing("B-IDX", "sm4."+n, "function", "not found")
 			continue
 		}
+		fnm[n] = f
 		fs = append(fs, f)
 		for _, a := range f.AnonFuncs {
 			fs = append(fs, a)
 		}
 	}
-	for _, h := range []string{"sm4.MSB", "sm4.GHASH", "sm4.GetY0", "sm4.GetH", "sm4.Rightshift"} {
-		helperContext[h] = true
-	}
 	st := bidx(c, "B-IDX", fs, nil)
 	c.Notes = append(c.Notes, fmt.Sprintf("B-IDX: %d sites, %d compiler, %d LinBounds, %d unproven", st.sites, st.compiler, st.lin, st.unproved))
+	c.MinSites("B-IDX", 60)
+
+	c12LenBlock(c, fnm["GHASH"])
+	c12Inc32(c, fnm["incr"])
+	c12Mult(c, fnm)
+	c12Formulas(c, fnm)
+
+	// FX
+	fx := getFX(c)
+	for _, n := range []string{"GCMEncrypt", "GCMDecrypt", "Sm4GCM", "GetY0", "GHASH"} {
+		f := fnm[n]
+		if f == nil {
+			continue
+		}
+		w := fx.Writes(f)
+		for i, p := range f.Params {
+			if !isByteSlice(p.Type()) {
+				continue
+			}
+			wit, bad := w[root{Kind: rkParam, Idx: i}]
+			c.Check(!bad, "FX-C12-inputs", fname(f), "does not write "+p.Name(), "", "the caller's "+p.Name()+" slice may be written: "+fx.describe(root{Kind: rkParam, Idx: i}, wit), wit.Pos)
+		}
+	}
+	if f := fnm["Sm4GCM"]; f != nil {
+		spec, _ := defaultResultSpec(f)
+		atoms := lenGuardAtoms(f, func(v ssa.Value) bool { return v == ssa.Value(f.Params[0]) }, func(n int64) bool { return n == 16 }, []int64{0, 15, 16, 17, 32}, "len(key)==16")
+		g := evalGuard(c.P, f, atoms, spec, append(callsNamed(f, "GCMEncrypt"), callsNamed(f, "GCMDecrypt")...))
+		c.Check(g.OK, "G-C12-keylen", fname(f), "len(key) == 16 or error", g.Why, g.Why, g.Pos)
+	}
+	c12TLS(c)
+}
+
+func c12LenBlock(c *Ctx, f *ssa.Function) {
+	if f == nil {
+		return
+	}
+	fn := fname(f)
+	be := newBigEnv(f, paramNames(f, "H", "A", "C"))
+	// the closure serialising a length: 8 stores data[k] = byte(len >> (56-8k))
+	var ser *ssa.Function
+	for _, a := range f.AnonFuncs {
+		if len(a.Params) == 1 && isByteSlice(a.Signature.Results().At(0).Type()) {
+			ser = a
+		}
+	}
+	if ser == nil {
+		c.Undecided("U-C12-lenblock", fn, "length serialiser", "no closure int -> []byte found in GHASH", f.Pos())
+		return
+	}
+	lanes := map[int64]int{}
+	instrsOf(ser, func(_ *ssa.BasicBlock, in ssa.Instruction) {
+		st, ok := in.(*ssa.Store)
+		if !ok {
+			return
+		}
+		ia, ok := st.Addr.(*ssa.IndexAddr)
+		if !ok {
+			return
+		}
+		k, ok := constInt(ia.Index)
+		if !ok {
+			return
+		}
+		x, lane, ok := byteLaneConv(st.Val)
+		if ok {
+			if bo, isB := x.(*ssa.BinOp); isB && bo.Op == token.AND {
+				if xx, l2, ok2 := byteLane(x); ok2 {
+					x, lane = xx, l2
+				}
+			}
+			if x == ssa.Value(ser.Params[0]) || stripConvAll(x) == ssa.Value(ser.Params[0]) {
+				lanes[k] = lane
+			}
+		}
+	})
+	okSer := len(lanes) == 8
+	for k := int64(0); k < 8; k++ {
+		if lanes[k] != int(7-k) {
+			okSer = false
+		}
+	}
+	c.Check(okSer, "U-C12-lenblock", fname(ser), "64-bit big-endian serialisation", "", fmt.Sprintf("byte k of the length field must be bits 63-8k..56-8k; lanes found: %v", lanes), ser.Pos())
+	// calls of the serialiser and their order in lenAB
+	var parts []string
+	for _, ci := range allCalls(f) {
+		call, ok := ci.(*ssa.Call)
+		if !ok {
+			continue
+		}
+		isSer := call.Call.StaticCallee() == ser
+		if mc, ok := call.Call.Value.(*ssa.MakeClosure); ok && mc.Fn == ssa.Value(ser) {
+			isSer = true
+		}
+		if isSer {
+			parts = append(parts, be.plain(call.Call.Args[0], call).String())
+		}
+	}
+	c.Check(strings.Join(parts, ";") == "mul(0x8,len(A));mul(0x8,len(C))", "U-C12-lenblock", fn, "[8*len(A)] then [8*len(C)]", "", "the length block is built from ["+strings.Join(parts, ";")+"]; GCM requires the bit lengths of A then C", f.Pos())
+	// the length block is the last block absorbed: addition(X[...], lenAB) with lenAB = concat(ser(A bits), ser(C bits))
+	okLast := false
+	for _, ci := range allCalls(f) {
+		call, ok := ci.(*ssa.Call)
+		if !ok || call.Call.StaticCallee() == nil || call.Call.StaticCallee().Name() != "addition" {
+			continue
+		}
+		s := be.bytesOf(call.Call.Args[1], call).String()
+		if strings.HasPrefix(s, "concat(") && strings.Count(s, "mul(0x8,len(") == 2 && strings.Index(s, "len(A)") < strings.Index(s, "len(C)") {
+			okLast = true
+		}
+	}
+	c.Check(okLast, "U-C12-lenblock", fn, "length block absorbed as A-bits || C-bits", "", "no GHASH step absorbs the concatenation of the two serialised bit lengths", f.Pos())
+}
+
+func c12Inc32(c *Ctx, f *ssa.Function) {
+	if f == nil {
+		return
+	}
+	var inc *ssa.Function
+	for _, a := range f.AnonFuncs {
+		if len(a.Params) == 2 {
+			inc = a
+		}
+	}
+	if inc == nil {
+		c.Undecided("K-C12-inc32", fname(f), "increment closure", "no closure (yi, yii) found in incr", f.Pos())
+		return
+	}
+	fn := fname(inc)
+	names := paramNames(inc, "yi", "yii")
+	var loop *ssa.BasicBlock
+	for _, h := range loopHeaders(inc) {
+		loop = h
+	}
+	if loop == nil {
+		c.Violated("K-C12-inc32", fn, "carry loop over the last four bytes", "no loop", inc.Pos())
+		return
+	}
+	var ind *ssa.Phi
+	for _, p := range phisOf(loop) {
+		ind = p
+	}
+	names[ind] = "i"
+	be := newBigEnv(inc, names)
+	// init = len(yi)-1, step -1
+	initOK, stepOK := false, false
+	for i, e := range ind.Edges {
+		if loop.Dominates(loop.Preds[i]) {
+			a := affineOf(e)
+			stepOK = len(a.coef) == 1 && a.coef[ind] == 1 && a.k == -1
+		} else {
+			s := be.plain(e, loop.Preds[i].Instrs[len(loop.Preds[i].Instrs)-1]).String()
+			initOK = s == "sub(len(yi),0x1)" || s == "sub(len(yii),0x1)"
+		}
+	}
+	// bound: i >= len-4 among the loop-controlling conditions
+	boundOK := false
+	for _, b := range inc.Blocks {
+		if ifi, ok := lastIf(b); ok && (b == loop || loop.Dominates(b)) {
+			s := be.plain(ifi.Cond, ifi).String()
+			if s == "ge(i,sub(len(yi),0x4))" || s == "ge(i,sub(len(yii),0x4))" {
+				// true edge continues the loop body
+				boundOK = true
+			}
+		}
+	}
+	// body: yii[i] = yii[i]+1 ; stop when non-zero
+	incOK, stopOK := false, false
+	instrsOf(inc, func(b *ssa.BasicBlock, in ssa.Instruction) {
+		if st, ok := in.(*ssa.Store); ok && loop.Dominates(b) {
+			if ia, ok := st.Addr.(*ssa.IndexAddr); ok && ia.X == ssa.Value(inc.Params[1]) && ia.Index == ssa.Value(ind) {
+				incOK = be.plain(st.Val, st).String() == "add(0x1,idx(yii,i))"
+			}
+		}
+		if ifi, ok := in.(*ssa.If); ok && loop.Dominates(b) && b != loop {
+			s := be.plain(ifi.Cond, ifi).String()
+			if s == "ne(idx(yii,i),0x0)" || s == "ne(add(0x1,idx(yii,i)),0x0)" {
+				// true edge leaves the loop
+				if !reach([]*ssa.BasicBlock{b.Succs[0]}, nil)[loop] {
+					stopOK = true
+				}
+			}
+			if s == "eq(idx(yii,i),0x0)" && !reach([]*ssa.BasicBlock{b.Succs[1]}, nil)[loop] {
+				stopOK = true
+			}
+		}
+	})
+	cp := false
+	for _, ci := range allCalls(inc) {
+		if bi, ok := ci.Common().Value.(*ssa.Builtin); ok && bi.Name() == "copy" {
+			a := ci.Common().Args
+			if be.bytesOf(a[0], ci).String() == "slice(yii,_,_)" && be.bytesOf(a[1], ci).String() == "slice(yi,_,_)" || (a[0] == ssa.Value(inc.Params[1]) && a[1] == ssa.Value(inc.Params[0])) {
+				cp = true
+			}
+		}
+	}
+	c.Check(initOK && stepOK && boundOK && incOK && stopOK && cp, "K-C12-inc32", fn, "inc32: last 4 bytes, big-endian, carry stops on non-zero", "",
+		fmt.Sprintf("counter increment is not inc32 (start at last byte=%v, step -1=%v, stops after byte len-4=%v, byte+1=%v, stop on non-zero=%v, starts from a copy=%v)", initOK, stepOK, boundOK, incOK, stopOK, cp), inc.Pos())
+	// incr: blocks Y[i] = inc(Y[i-1]) for i=1..n-1, Y[0] = Y0
+	names2 := paramNames(f, "n", "Y0")
+	for _, h := range loopHeaders(f) {
+		ld := describeLoop(f, h, names2)
+		_ = ld
+	}
+	be2 := newBigEnv(f, names2)
+	okChain := false
+	for _, ci := range allCalls(f) {
+		call, ok := ci.(*ssa.Call)
+		if !ok {
+			continue
+		}
+		isInc := call.Call.StaticCallee() == inc
+		if mc, ok := call.Call.Value.(*ssa.MakeClosure); ok && mc.Fn == ssa.Value(inc) {
+			isInc = true
+		}
+		if !isInc {
+			continue
+		}
+		for _, p := range phisOf(call.Block().Idom()) {
+			be2.names[p] = "i"
+		}
+		a0 := be2.bytesOf(call.Call.Args[0], call).String()
+		a1 := be2.bytesOf(call.Call.Args[1], call).String()
+		Y := "copyN(mul(0x10,n),Y0)"
+		okChain = a0 == "slice("+Y+",mul(0x10,sub(i,0x1)),add(0x10,mul(0x10,sub(i,0x1))))" && a1 == "slice("+Y+",mul(0x10,i),add(0x10,mul(0x10,i)))"
+		if !okChain {
+			dbg("incr chain: %s -> %s", a0, a1)
+		}
+	}
+	c.Check(okChain, "K-C12-inc32", fname(f), "Y[i] = inc32(Y[i-1]), Y[0] = J0", "", "counter blocks are not generated by successive increments of J0", f.Pos())
+}
+
+func c12Mult(c *Ctx, fnm map[string]*ssa.Function) {
+	// findYi
+	if f := fnm["findYi"]; f != nil {
+		be := newBigEnv(f, paramNames(f, "Y", "index"))
+		ok := false
+		for _, ifi := range ifsOf(f) {
+			s := be.plain(ifi.Cond, ifi).String()
+			if s == "eq(and(0x1,shr(idx(Y,quo(index,0x8)),sub(0x7,rem(index,0x8)))),0x1)" {
+				// true -> return 1
+				t := ifi.Block().Succs[0]
+				if r, isRet := t.Instrs[len(t.Instrs)-1].(*ssa.Return); isRet {
+					if k, isC := constInt(r.Results[0]); isC && k == 1 {
+						ok = true
+					}
+				}
+			} else {
+				dbg("findYi cond: %s", s)
+			}
+		}
+		c.Check(ok, "K-C12-mult", fname(f), "bit i of Y, most significant bit first", "", "findYi does not return bit (7 - i mod 8) of byte i/8", f.Pos())
+	}
+	// Rightshift
+	if f := fnm["Rightshift"]; f != nil {
+		names := paramNames(f, "V")
+		var ind *ssa.Phi
+		for _, h := range loopHeaders(f) {
+			for _, p := range phisOf(h) {
+				ind = p
+			}
+		}
+		ok := false
+		if ind != nil {
+			names[ind] = "i"
+			be := newBigEnv(f, names)
+			var stores []string
+			instrsOf(f, func(b *ssa.BasicBlock, in ssa.Instruction) {
+				if st, isSt := in.(*ssa.Store); isSt {
+					conds := dominatingCondsWithin(be, b, ind.Block())
+					stores = append(stores, conds+be.plain(st.Addr, st).String()+"="+be.plain(st.Val, st).String())
+				}
+			})
+			sort.Strings(stores)
+			got := strings.Join(stores, " ; ")
+			want1 := "[ne(i,0x0)] addr(V,i)=or(idx(V,i),shl(and(0x1,idx(V,i-1)),0x7)) ; addr(V,i)=shr(idx(V,i),0x1)"
+			downward := false
+			for i, e := range ind.Edges {
+				if ind.Block().Dominates(ind.Block().Preds[i]) {
+					a := affineOf(e)
+					downward = a.k == -1
+				}
+			}
+			ok = got == want1 && downward
+			if !ok {
+				dbg("Rightshift stores: %s downward=%v", got, downward)
+			}
+		}
+		c.Check(ok, "K-C12-mult", fname(f), "one-bit right shift across bytes, from the last byte down", "", "Rightshift is not V >> 1 over the whole block (each byte takes the low bit of its predecessor as its top bit, processed from the last byte)", f.Pos())
+	}
+	// multiplication
+	if f := fnm["multiplication"]; f != nil {
+		fn := fname(f)
+		be := newBigEnv(f, paramNames(f, "X", "Y"))
+		// R[0] = 0xe1 in a 16-byte buffer
+		rOK := false
+		instrsOf(f, func(_ *ssa.BasicBlock, in ssa.Instruction) {
+			if st, ok := in.(*ssa.Store); ok {
+				if ia, ok := st.Addr.(*ssa.IndexAddr); ok {
+					k, ok1 := constInt(ia.Index)
+					v, ok2 := constInt(st.Val)
+					if ok1 && ok2 && k == 0 && v == 0xe1 {
+						rOK = true
+					}
+				}
+			}
+		})
+		// loop 0..127
+		loopOK := false
+		for _, h := range loopHeaders(f) {
+			for _, p := range phisOf(h) {
+				if iv, ok := inductionOf(p); ok && iv.init == 0 && iv.step == 1 {
+					if ifi, ok := lastIf(h); ok {
+						s := be.plain(ifi.Cond, ifi).String()
+						if strings.HasPrefix(s, "le(") && strings.HasSuffix(s, ",0x7f)") || strings.HasPrefix(s, "lt(") && strings.HasSuffix(s, ",0x80)") {
+							loopOK = true
+						}
+					}
+				}
+			}
+		}
+		// V's low bit decides the reduction: test V[15]&1 before shifting; reduction adds R after the shift
+		redOK := false
+		for _, ifi := range ifsOf(f) {
+			cond := ifi.Cond
+			bo, ok := cond.(*ssa.BinOp)
+			if !ok || bo.Op != token.EQL {
+				continue
+			}
+			and, ok := bo.X.(*ssa.BinOp)
+			if !ok || and.Op != token.AND {
+				continue
+			}
+			_, idx, isLd := loadOfIndex(and.X)
+			k, isC := constInt(and.Y)
+			z, isZ := constInt(bo.Y)
+			i15, is15 := constInt(idx)
+			if !isLd || !isC || k != 1 || !isZ || z != 0 || !is15 || i15 != 15 {
+				continue
+			}
+			// false branch (bit set): Rightshift then addition(V, R)
+			fb := ifi.Block().Succs[1]
+			var seq []string
+			for _, in := range fb.Instrs {
+				if call, ok := in.(*ssa.Call); ok && call.Call.StaticCallee() != nil {
+					seq = append(seq, call.Call.StaticCallee().Name())
+				}
+			}
+			tb := ifi.Block().Succs[0]
+			var seqT []string
+			for _, in := range tb.Instrs {
+				if call, ok := in.(*ssa.Call); ok && call.Call.StaticCallee() != nil {
+					seqT = append(seqT, call.Call.StaticCallee().Name())
+				}
+			}
+			if strings.Join(seq, ",") == "Rightshift,addition" && strings.Join(seqT, ",") == "Rightshift" {
+				redOK = true
+			}
+		}
+		// accumulate Z ^= V when the bit is set
+		accOK := false
+		for _, ifi := range ifsOf(f) {
+			s := be.plain(ifi.Cond, ifi).String()
+			if strings.HasPrefix(s, "eq(call:sm4.findYi(Y,") && strings.HasSuffix(s, "),0x1)") {
+				for _, in := range ifi.Block().Succs[0].Instrs {
+					if call, ok := in.(*ssa.Call); ok && call.Call.StaticCallee() != nil && call.Call.StaticCallee().Name() == "addition" {
+						accOK = true
+					}
+				}
+			}
+		}
+		c.Check(rOK && loopOK && redOK && accOK, "K-C12-mult", fn, "Z = X·Y in GF(2^128) (SP 800-38D algorithm 1)", "",
+			fmt.Sprintf("multiplication deviates from the standard algorithm (R=0xe1: %v, 128 iterations: %v, shift/reduce by low bit of V: %v, Z^=V on set bit: %v)", rOK, loopOK, redOK, accOK), f.Pos())
+	}
+}
+
+// lastWriterOf: the last block-cipher call writing buffer buf that dominates `at`
+func lastEncryptInto(f *ssa.Function, buf ssa.Value, at ssa.Instruction) *ssa.Call {
+	var last *ssa.Call
+	for _, ci := range allCalls(f) {
+		call, ok := ci.(*ssa.Call)
+		if !ok || !call.Call.IsInvoke() || call.Call.Method.Name() != "Encrypt" {
+			continue
+		}
+		if call.Call.Args[0] != buf {
+			continue
+		}
+		if instrDominates(call, at) && (last == nil || instrDominates(last, call)) {
+			last = call
+		}
+	}
+	return last
+}
+
+func c12Formulas(c *Ctx, fnm map[string]*ssa.Function) {
+	if f := fnm["GetH"]; f != nil {
+		be := newBigEnv(f, paramNames(f, "key"))
+		ok := false
+		for _, ci := range allCalls(f) {
+			call, isC := ci.(*ssa.Call)
+			if isC && call.Call.IsInvoke() && call.Call.Method.Name() == "Encrypt" {
+				src := be.bytesOf(call.Call.Args[1], call).String()
+				recv := be.plain(call.Call.Value, call).String()
+				ok = (src == "slice(?alloc:*[16]byte,_,0x10)" || strings.HasPrefix(src, "make(")) && recv == "res0(call:sm4.NewCipher(key))"
+				// the source buffer must be all zero: a fresh buffer never stored to
+				if al, isSl := call.Call.Args[1].(*ssa.Slice); isSl {
+					for _, u := range *al.Referrers() {
+						if _, isIA := u.(*ssa.IndexAddr); isIA {
+							ok = false
+						}
+					}
+				}
+				for _, b := range f.Blocks {
+					if r, isR := b.Instrs[len(b.Instrs)-1].(*ssa.Return); isR {
+						if r.Results[0] != call.Call.Args[0] {
+							ok = false
+						}
+					}
+				}
+			}
+		}
+		c.Check(ok, "K-C12-formulas", fname(f), "H = E(K, 0^128)", "", "GetH does not encrypt a fresh all-zero block under the key", f.Pos())
+	}
+	if f := fnm["GetY0"]; f != nil {
+		be := newBigEnv(f, paramNames(f, "H", "IV"))
+		got := map[string]string{}
+		for _, b := range f.Blocks {
+			if r, isR := b.Instrs[len(b.Instrs)-1].(*ssa.Return); isR {
+				conds := dominatingConds(be, b)
+				key := "other"
+				for k := range conds {
+					if k == "eq(mul(0x8,len(IV)),0x60)=true" || k == "eq(len(IV),0xc)=true" {
+						key = "96"
+					}
+				}
+				got[key] = be.bytesOf(r.Results[0], r).String()
+			}
+		}
+		ok := (got["96"] == "concat(make(0x0),IV,lit(0x0,0x0,0x0,0x1))" || got["96"] == "concat(IV,lit(0x0,0x0,0x0,0x1))") && got["other"] == "call:sm4.GHASH(H,concat(),IV)"
+		c.Check(ok, "K-C12-formulas", fname(f), "J0 = IV||0^31||1 (96-bit IV) else GHASH(H, {}, IV)", "", fmt.Sprintf("J0 derivation is %v", got), f.Pos())
+	}
+	for _, n := range []string{"GCMEncrypt", "GCMDecrypt"} {
+		f := fnm[n]
+		if f == nil {
+			continue
+		}
+		fn := fname(f)
+		text := "P"
+		if n == "GCMDecrypt" {
+			text = "C"
+		}
+		names := paramNames(f, "K", "IV", text, "A")
+		be := newBigEnv(f, names)
+		H := "call:sm4.GetH(K)"
+		Y0 := "call:sm4.GetY0(" + H + ",IV)"
+		// tag
+		var tagv ssa.Value
+		var ret *ssa.Return
+		for _, b := range f.Blocks {
+			if r, isR := b.Instrs[len(b.Instrs)-1].(*ssa.Return); isR {
+				ret = r
+				tagv = r.Results[1]
+			}
+		}
+		okTag := false
+		detail := ""
+		if msb, isCall := tagv.(*ssa.Call); isCall && msb.Call.StaticCallee() != nil && msb.Call.StaticCallee().Name() == "MSB" {
+			bits, _ := constInt(msb.Call.Args[0])
+			if add, isAdd := msb.Call.Args[1].(*ssa.Call); isAdd && add.Call.StaticCallee() != nil && add.Call.StaticCallee().Name() == "addition" {
+				enc := lastEncryptInto(f, add.Call.Args[0], add)
+				gh := ""
+				encSrc := ""
+				if enc != nil {
+					encSrc = be.bytesOf(enc.Call.Args[1], enc).String()
+					gh = be.bytesOf(add.Call.Args[1], add).String()
+				}
+				// the ciphertext: parameter C when decrypting, the produced buffer when encrypting
+				wantGH := "call:sm4.GHASH(" + H + ",A,C)"
+				if n == "GCMEncrypt" {
+					wantGH = "call:sm4.GHASH(" + H + ",A,make(len(P)))"
+				}
+				// J0 itself, or block 0 of the counter sequence (incr copies J0 there)
+				isJ0 := encSrc == Y0 || (strings.HasPrefix(encSrc, "slice(call:sm4.incr(") && (strings.HasSuffix(encSrc, ","+Y0+"),_,0x10)") || strings.HasSuffix(encSrc, ","+Y0+"),0x0,0x10)")))
+				okTag = bits == 128 && isJ0 && gh == wantGH
+				detail = fmt.Sprintf("bits=%d E(K,·) over %s, GHASH term %s", bits, encSrc, gh)
+			}
+		}
+		c.Check(okTag, "K-C12-formulas", fn, "T = MSB_128(E(K,J0) xor GHASH(H,A,C))", "", "tag computation deviates: "+detail, ret.Pos())
+		// counter blocks and CTR loop
+		Y := "call:sm4.incr(add(0x1,res0(call:sm4." + n + "$1(quo(len(" + text + "),0x10),rem(len(" + text + "),0x10)))),"+Y0+")"
+		okCtr := false
+		for _, h := range loopHeaders(f) {
+			ld := describeLoop(f, h, names)
+			ev := strings.Join(ld.Events, " ; ")
+			ev = strings.ReplaceAll(ev, Y, "Y")
+			out := "make(len(" + text + "))"
+			w1 := "Encrypt(slice(?alloc:*[16]byte,_,0x10), slice(Y,mul(0x10,i),add(0x10,mul(0x10,i)))) ; copy(slice(" + out + ",mul(0x10,sub(i,0x1)),add(0x10,mul(0x10,sub(i,0x1)))), call:sm4.addition(slice(" + text + ",mul(0x10,sub(i,0x1)),add(0x10,mul(0x10,sub(i,0x1)))),slice(?alloc:*[16]byte,_,0x10)))"
+			if ev == w1 {
+				okCtr = true
+			} else {
+				dbg("%s ctr loop: %s", n, ev)
+			}
+		}
+		c.Check(okCtr, "K-C12-formulas", fn, "block i of the output = text block i xor E(K, Y[i]), i >= 1", "", "the counter-mode loop does not xor text block i-1 with E(K,Y[i]) into an output of the text's length", f.Pos())
+		// output length
+		if n == "GCMDecrypt" && ret != nil {
+			got := be.bytesOf(ret.Results[0], ret).String()
+			c.Check(got == "make(len(C))", "K-C12-formulas", fn, "plaintext has the ciphertext's length", "", "decryption returns "+got, ret.Pos())
+		}
+	}
+}
+
+func c12TLS(c *Ctx) {
+	f := c.Fn("gmtls", "aeadSM4GCM")
+	if f == nil {
+		c.Missing("T-C12-tls", "gmtls.aeadSM4GCM", "function", "not found")
+		return
+	}
+	fn := fname(f)
+	be := newBigEnv(f, paramNames(f, "key", "nonce"))
+	var gcm *ssa.Call
+	usesHelper := false
+	for _, ci := range allCalls(f) {
+		call, ok := ci.(*ssa.Call)
+		if !ok {
+			continue
+		}
+		id := calleeID(&call.Call)
+		if id == "crypto/cipher.NewGCMWithNonceSize" || id == "crypto/cipher.NewGCM" {
+			gcm = call
+		}
+		if strings.Contains(id, "sm4.GCM") || strings.Contains(id, "sm4.Sm4GCM") {
+			usesHelper = true
+		}
+	}
+	ok := gcm != nil && !usesHelper
+	detail := "no crypto/cipher GCM constructor is called"
+	if gcm != nil {
+		s := be.plain(gcm, gcm).String()
+		detail = s
+		ok = ok && (s == "call:crypto/cipher.NewGCMWithNonceSize(res0(call:sm4.NewCipher(key)),0xc)" || s == "call:crypto/cipher.NewGCM(res0(call:sm4.NewCipher(key)))")
+	}
+	c.Check(ok, "T-C12-tls", fn, "AEAD = crypto/cipher GCM over sm4.NewCipher(key), 12-byte nonce", "", "the TLS SM4-GCM suites are built with: "+detail, f.Pos())
+	// suites table rows with an AEAD use this constructor
+	n := 0
+	if pk := c.P.Pkgs["gmtls"]; pk != nil {
+		init := c.P.SSAPkg["gmtls"].Func("init")
+		instrsOf(init, func(_ *ssa.BasicBlock, in ssa.Instruction) {
+			if st, ok := in.(*ssa.Store); ok {
+				if fnv, ok := st.Val.(*ssa.Function); ok && fnv == f {
+					n++
+				}
+			}
+		})
+	}
+	c.Check(n >= 2, "T-C12-tls", fn, "installed as the AEAD of the SM4-GCM suites", "", fmt.Sprintf("aeadSM4GCM is referenced by %d suite rows", n), f.Pos())
 }
